@@ -5,11 +5,12 @@ set -u
 patch="$1"; shift
 cd /repo || exit 2
 if ! git diff --quiet; then echo "/repo is dirty; refusing"; exit 2; fi
-if ! git apply --3way "$patch" 2>/tmp/apply.err; then
-  if ! git apply "$patch"; then echo "APPLY-FAILED $patch"; cat /tmp/apply.err; git checkout -- . ; exit 3; fi
+head0=$(git rev-parse HEAD)
+trap 'cd /repo && git reset -q --hard $head0 && git clean -fdq -- . >/dev/null 2>&1' EXIT
+if ! git apply "$patch" 2>/tmp/apply.err; then
+  if ! git apply --3way "$patch" 2>>/tmp/apply.err || ! git diff --quiet --diff-filter=U; then echo "APPLY-FAILED $patch"; tail -3 /tmp/apply.err; exit 3; fi
 fi
 git reset -q
-trap 'cd /repo && git checkout -- . && git clean -fdq -- . >/dev/null 2>&1' EXIT
 for c in "$@"; do
   out=$(cd /verif && ${TIER:+VERIF_TIER=$TIER} ./check.sh $c 2>&1); rc=$?
   if [ $rc -eq 1 ] && echo "$out" | grep -q "^VIOLATION property=$c"; then
